@@ -214,6 +214,19 @@ def setup_git(rng, root, nodes):
     """Initialise a repository with .gitignore files and mixed tracking states. Returns submodule paths."""
     trees.git(root, "init", "-q")
     pats = rng.sample(GITIGNORE_PATTERNS, rng.randint(1, 5))
+    # certain members of every tracking class
+    if rng.random() < 0.8:
+        pats += [p for p in ("*.o", "build/") if p not in pats]
+        for rel, text in (("objs/data.o", "o\n"), ("objs/keep.c", "c\n"), ("objs/deep/er.o", "o\n"), ("objs/deep/er.c", "c\n"),
+                          ("build/out.bin", "b\n"), ("build/sub/x.c", "c\n"), ("trk/t.o", "o\n"), ("trk/t.c", "c\n"),
+                          ("trk/forced.o", "o\n"), ("onlyign/a.o", "o\n")):
+            fp = root / rel
+            if not os.path.lexists(fp.parent) or fp.parent.is_dir():
+                try:
+                    fp.parent.mkdir(parents=True, exist_ok=True)
+                    fp.write_text(text)
+                except OSError:
+                    pass
     (root / ".gitignore").write_text("\n".join(pats) + "\n")
     dirs = [n["path"] for n in nodes if n["kind"] == "dir" and not any(part in (".hg", ".sl") for part in n["path"].split("/"))]
     if dirs and rng.random() < 0.5:
@@ -229,6 +242,8 @@ def setup_git(rng, root, nodes):
     for f in forced:
         trees.git(root, "add", "-f", "--", f, check=False)
     trees.git(root, "add", ".gitignore", check=False)
+    trees.git(root, "add", "--", "trk/t.c", check=False)
+    trees.git(root, "add", "-f", "--", "trk/forced.o", check=False)
     trees.git(root, "commit", "-q", "-m", "init", "--allow-empty", check=False)
     submods = []
     mode = rng.choice(["none", "none", "real", "manual"])
